@@ -6,7 +6,7 @@ usage: tools/seedtest.py <seed dir under /verif/seeded> <property id> [check ids
 Writes <seed dir>/meta.json."""
 import json, os, subprocess, sys, time
 seed = os.path.abspath(sys.argv[1]); prop = sys.argv[2]
-ids = [a for a in sys.argv[3:] if not a.startswith("--")] or [prop]
+ids = [prop] + [a for a in sys.argv[3:] if not a.startswith("--") and a != prop]
 tier = "thorough" if "--thorough" in sys.argv else "quick"
 patch = os.path.join(seed, "patch.diff")
 wt = "/tmp/vseed_" + os.path.basename(seed)
